@@ -3581,7 +3581,13 @@ impl SctpInner {
         // Mark all chunks of abandoned messages in one pass.
         if !abandon_set.is_empty() {
             for record in sent_queue.values_mut() {
-                if abandon_set.contains(&(record.stream_id, record.ssn)) {
+                // The key is not unique to one message: every unordered message and
+                // every DCEP message of a stream carries SSN 0. Only chunks that have
+                // a partial-reliability policy of their own may be given up; a reliable
+                // chunk (DCEP OPEN / ACK) that merely shares the key must stay
+                // outstanding until the peer acknowledges it.
+                let is_pr_sctp = record.max_retransmits.is_some() || record.expiry.is_some();
+                if is_pr_sctp && abandon_set.contains(&(record.stream_id, record.ssn)) {
                     record.abandoned = true;
                     record.needs_retransmit = false;
                     if record.in_flight {
